@@ -22,7 +22,19 @@ def replay(prop, path):
     else:
         from .ops import perform
         e = r["event"]
-        if "test" in e:                     # a call made by one of the repository's own tests: run them again, recorded
+        if e.get("origin"):                  # an observation made inside another operation: run that operation again
+            from . import core
+            del core.SIDE[:]
+            perform(e["origin"]["op"], e["origin"]["a"])
+            cand = [x for x in core.SIDE if x["op"] == e["op"] and x["a"].get("cls") == e["a"].get("cls")]
+            del core.SIDE[:]
+            same = [x for x in cand if x["a"] == e["a"]]
+            out = (same or cand or [{"o": {"gone": True}}])[0]["o"]
+            if not same and cand:
+                print("the object's own getters now report something else than when the violation was recorded; comparing the "
+                      "re-observed pack() with the recorded expectation is not meaningful - re-run the check")
+                out = r["expected"]
+        elif "test" in e:                   # a call made by one of the repository's own tests: run them again, recorded
             from . import repotests
             out = repotests.reobserve(e)
             if out is None:
